@@ -103,6 +103,7 @@ package loadbalancer
 //@   ensures seq: ejected: !backend.IsHealthy && backend.UnhealthyUntil == now() + duration
 //@   ensures mirror: has_bm(lb.metricsCollector, backend.Name) && !mirrorOf(lb, backend)
 //@   ensures cells: bmCellsOK(lb.metricsCollector)
+//@   ensures seq: cells_stay: bmKept(lb.metricsCollector)
 //@   modifies backend.IsHealthy, backend.UnhealthyUntil, mapof(lb.metricsCollector.metrics.BackendMetrics), metrics.BackendMetrics.IsHealthy, metrics.BackendMetrics.LastHealthCheck
 
 //@ func (*LoadBalancer).IsBackendHealthy
@@ -158,6 +159,7 @@ package loadbalancer
 //@   ensures counter_range: failCount(lb, backend.Name) >= 0 && failCount(lb, backend.Name) < lb.healthChecks.passiveThreshold
 //@   ensures other_counters_kept: forall n string :: {lb.healthChecks.unhealthyBackends[n]} n != backend.Name ==> failCount(lb, n) == old(failCount(lb, n))
 //@   ensures cells: bmCellsOK(lb.metricsCollector)
+//@   ensures cells_stay: bmKept(lb.metricsCollector)
 //@   modifies backend.IsHealthy, backend.UnhealthyUntil, mapof(lb.healthChecks.unhealthyBackends), mapof(lb.metricsCollector.metrics.BackendMetrics), metrics.BackendMetrics.IsHealthy, metrics.BackendMetrics.LastHealthCheck
 
 // ---- selection
@@ -446,6 +448,8 @@ package loadbalancer
 //@   ensures kept_cells: bmCellsOK(lb.metricsCollector)
 //@   ensures kept_passive: passiveOK(lb)
 //@   ensures kept_total: mtx(lb).TotalRequests == old(mtx(lb).TotalRequests)
+//@   ensures sent_request_is_counted_for_its_backend: old(len(mtx(lb).BackendMetrics)) < metrics.MaxBackendMetrics ==> has(mtx(lb).BackendMetrics, backend.Name)
+//@             && mtx(lb).BackendMetrics[backend.Name].TotalRequests == (old(has(mtx(lb).BackendMetrics, backend.Name)) ? (old(mtx(lb).BackendMetrics[backend.Name].TotalRequests) + 1) % 18446744073709551616 : 1)
 //@   modifies backend.IsHealthy, backend.UnhealthyUntil, mapof(lb.healthChecks.unhealthyBackends), mapof(lb.metricsCollector.metrics.BackendMetrics),
 //@            metrics.BackendMetrics.IsHealthy, metrics.BackendMetrics.LastHealthCheck, metrics.BackendMetrics.TotalRequests, metrics.BackendMetrics.SuccessfulRequests,
 //@            metrics.BackendMetrics.FailedRequests, metrics.BackendMetrics.AverageResponseTime, metrics.Metrics.SuccessfulRequests, metrics.Metrics.FailedRequests, metrics.Metrics.avgResponseTimeBits
@@ -462,6 +466,10 @@ package loadbalancer
 //@             && asptr(lastProxiedWriter, *responseWriter).ResponseWriter == w
 //@   ensures_panic handed_over_once_before_abort: proxied == old(proxied) + 1 && lastProxiedReq == ptr(r)
 //@   ensures kept: bmCellsOK(lb.metricsCollector) && passiveOK(lb) && mtx(lb).TotalRequests == old(mtx(lb).TotalRequests)
+//@   ensures sent_request_is_counted_for_its_backend: old(has(mtx(lb).BackendMetrics, backend.Name)) && old(len(mtx(lb).BackendMetrics)) < metrics.MaxBackendMetrics ==> has(mtx(lb).BackendMetrics, backend.Name)
+//@             && mtx(lb).BackendMetrics[backend.Name].TotalRequests == (old(mtx(lb).BackendMetrics[backend.Name].TotalRequests) + 1) % 18446744073709551616
+//@   ensures_panic aborted_request_is_counted_for_its_backend: old(has(mtx(lb).BackendMetrics, backend.Name)) && old(len(mtx(lb).BackendMetrics)) < metrics.MaxBackendMetrics ==> has(mtx(lb).BackendMetrics, backend.Name)
+//@             && mtx(lb).BackendMetrics[backend.Name].TotalRequests == (old(mtx(lb).BackendMetrics[backend.Name].TotalRequests) + 1) % 18446744073709551616
 //@   ensures_panic gauge_restored_on_abort: backend.ActiveConnections == old(backend.ActiveConnections)
 //@   ensures_panic aborted_counts_as_failed: mtx(lb).FailedRequests == old(mtx(lb).FailedRequests) + 1 && outcomes(lb) == old(outcomes(lb)) + 1
 //@   ensures_panic kept_on_abort: bmCellsOK(lb.metricsCollector) && passiveOK(lb) && mtx(lb).TotalRequests == old(mtx(lb).TotalRequests)
